@@ -147,6 +147,14 @@ var nearForms = []strForm{
 		}
 		return r[:1] + fmt.Sprintf("%%%02X", r[1]) + r[2:]
 	}},
+	// the reverse confusion (round 11): a space where the registered string has a literal "+". Form-encoded (RFC 6749 2.3.1,
+	// url.QueryEscape) the space travels as "+", so the wire bytes LOOK like the registered string; decoded they are not it.
+	{"plus_to_space", func(r string) string {
+		if strings.Contains(r, "+") {
+			return strings.ReplaceAll(r, "+", " ")
+		}
+		return r + " "
+	}},
 }
 
 func formIndex(fs []strForm, name string) int {
@@ -173,7 +181,16 @@ var grantForms = []strForm{{"upper", strings.ToUpper}, {"lead_sp", func(r string
 	{"null", lit("null")}, {"undefined", lit("undefined")}, {"title", func(r string) string { return strings.ToUpper(r[:1]) + r[1:] }}}
 
 // audiences that are not the issuer: another host, near misses of the issuer
-var audForms = append([]strForm{{"other", lit("https://other.example.com")}}, nearForms[:12]...)
+var audForms = append(append([]strForm{{"other", lit("https://other.example.com")}}, nearForms[:12]...),
+	// the issuer of ANOTHER tenant (host) of the same provider instance; with a static issuer just another host
+	strForm{"other_tenant", otherTenant})
+
+func otherTenant(iss string) string {
+	if iss == "https://"+hostsT[0] {
+		return "https://" + hostsT[1]
+	}
+	return "https://" + hostsT[0]
+}
 
 // client_assertion_type values that are not the jwt-bearer urn
 var atypeForms = []strForm{{"saml2", lit("urn:ietf:params:oauth:client-assertion-type:saml2-bearer")}, {"upper", strings.ToUpper},
@@ -225,8 +242,26 @@ func isCross(k int) bool { return k >= pXBasic && k <= pXDup || k == pXSub }
 
 var partialN = map[int]string{pAssertTypeOnly: "PAssertTypeOnly", pAssertNoType: "PAssertNoType", pAssertWrongType: "PAssertWrongType"}
 var partialT = map[int]string{pAssertTypeOnly: "assertion_type_only", pAssertNoType: "assertion_no_type", pAssertWrongType: "assertion_wrong_type"}
-var prevN = []string{"NoPrev", "PrevAssert", "PrevBasic", "PrevPost", "PrevSelf"}
-var prevT = []string{"none", "assertion", "basic", "post", "self"}
+var prevN = []string{"NoPrev", "PrevAssert", "PrevBasic", "PrevPost", "PrevSelf", "PrevOtherHost"}
+var prevT = []string{"none", "assertion", "basic", "post", "self", "self_other_host"}
+
+// state of the token the request carries (token to introspect / revoke, jwt-bearer grant assertion)
+var artN = []string{"ArtOk", "ArtJunk", "ArtGone"}
+var artT = []string{"live", "junk", "gone"}
+
+// strings that do not decode: not an encrypted token id, not a JWT of this provider ("valid" = the live token of the case)
+// (the opaque tokens are AES-CFB without authentication: a live token with bytes appended or its tail cut off still decrypts to
+// the live token id, so such strings are NOT junk and are not generated here)
+var junkTokenForms = []strForm{{"junk", lit("junk")}, {"x", lit("x")}, {"null", lit("null")}, {"short_prefix", func(v string) string { return v[:min(12, len(v)/2)] }},
+	{"dots", lit("a.b.c")}, {"not_base64", func(v string) string { return "!" + v }},
+	{"alg_none_jwt", lit("eyJhbGciOiJub25lIn0.eyJqdGkiOiJhdC14Iiwic3ViIjoiYWxpY2UifQ.")}, {"space", lit(" ")}}
+
+// well formed, names nothing live
+var goneTokenForms = []string{"unknown_id", "expired", "other_subject_unknown"}
+var goneBearerForms = []string{"expired", "aud_other_host", "aud_other_tenant", "iat_too_old"}
+
+// hosts of a provider that derives its issuer from the request (op.IssuerFromHost)
+var hostsT = []string{"a.op.example.com", "b.op.example.com"}
 
 var crossN = map[int]string{pXBasic: "PXBasic", pXAssert: "PXAssert", pXPost: "PXPost", pXPostID: "PXPostId", pXDup: "PXDup", pXSub: "PXSub"}
 var crossT = map[int]string{pXBasic: "cross_basic", pXAssert: "cross_assertion", pXPost: "cross_post_basic_other", pXPostID: "cross_post_other_id", pXDup: "cross_dup_client_id", pXSub: "cross_assertion_subject"}
@@ -250,6 +285,9 @@ type cfgT struct {
 	// the REST of op.Config, next to the flags above (index of envT; not in the model: no guard reads it, and the theorems
 	// about disabled grants hold for every configuration)
 	Env int
+	// the provider derives its issuer from the request's host (op.IssuerFromHost) instead of a static one (not in the model:
+	// an assertion is AOk exactly when it is addressed to the issuer of the host it is sent to)
+	Dyn bool
 }
 
 var envT = []string{"default", "offline_access_claims_nos256", "openid_only_backchannel", "grant_names_as_scopes"}
@@ -318,7 +356,11 @@ type caseT struct {
 	Prev     int    // 0 = first request on the fixture state; 1..3 = preceded by a fully credentialed request of a third client; 4 = by X's own
 	GForm    int    // Grant == gUnknown: 0 = "password"; n > 0: grantForms[n-1] of the grant GBase, whose artefact the request carries
 	GBase    int
+	Host     int    // Cfg.Dyn: the host the request is sent to (index of hostsT)
+	Art      int    // state of the token to introspect / revoke, of the jwt-bearer grant assertion (index of artN)
+	ArtF     int    // ... its concrete form (index modulo the forms of the kind)
 	SecKind  int    // how the stored secret of a secret-registered client looks (index of secKindT)
+	IDKind   int    // how X's client id looks (index of idKindT)
 	Tag      string // extra tag for directed cases
 }
 
@@ -431,10 +473,77 @@ func (p presT) formTags() []string {
 	return t
 }
 
-var secKindT = []string{"plain", "len1024", "len4096", "len4100", "padded", "specials"}
+var secKindT = []string{"plain", "len1024", "len4096", "len4100", "padded", "specials", "plus"}
+
+// how X's client id looks: letters and digits; with a literal "+"; with a space (both legal in a client id, both must be
+// form-encoded in the Basic header: %2B, and "+" or %20)
+var idKindT = []string{"plain", "plus", "space"}
+
+func clientID(kind, n int) string {
+	switch kind {
+	case 1:
+		return fmt.Sprintf("ck+s%d", n)
+	case 2:
+		return fmt.Sprintf("ck s%d", n)
+	}
+	return fmt.Sprintf("cks%d", n) // has letters with Unicode case-fold twins
+}
+
+// formDecode: application/x-www-form-urlencoded decoding written out by hand (RFC 6749 2.3.1 / appendix B: "+" is a space,
+// %XX a byte) - the harness's own ground truth for what a Basic user / password on the wire MEANS, independent of net/url
+func formDecode(w string) (string, bool) {
+	hex := func(c byte) int {
+		switch {
+		case c >= '0' && c <= '9':
+			return int(c - '0')
+		case c >= 'a' && c <= 'f':
+			return int(c-'a') + 10
+		case c >= 'A' && c <= 'F':
+			return int(c-'A') + 10
+		}
+		return -1
+	}
+	var out []byte
+	for i := 0; i < len(w); i++ {
+		switch w[i] {
+		case '+':
+			out = append(out, ' ')
+		case '%':
+			if i+2 >= len(w) || hex(w[i+1]) < 0 || hex(w[i+2]) < 0 {
+				return "", false
+			}
+			out = append(out, byte(hex(w[i+1])<<4|hex(w[i+2])))
+			i += 2
+		default:
+			out = append(out, w[i])
+		}
+	}
+	return string(out), true
+}
+
+var labelErrors int // Basic credentials whose wire form does not mean what the case's abstract kind says (must stay 0)
 
 func (c caseT) coq() string {
-	return emit.Ctor("mkInput", routerN[c.Router], endpointN[c.Endpoint], c.Cfg.coq(), c.Reg.coq(), c.Pres.coq(), grantN[c.Grant], c.Pl.coq(), prevN[c.Prev])
+	return emit.Ctor("mkInput", routerN[c.Router], endpointN[c.Endpoint], c.Cfg.coq(), c.Reg.coq(), c.Pres.coq(), grantN[c.Grant], c.Pl.coq(), prevN[c.Prev], artN[c.Art])
+}
+
+func (c caseT) artForm() string {
+	switch {
+	case c.Art == 1 && c.Endpoint == eToken:
+		return "not_a_jwt"
+	case c.Art == 1:
+		return junkTokenForms[c.ArtF%len(junkTokenForms)].Name
+	case c.Endpoint == eToken:
+		return goneBearerForms[c.ArtF%len(goneBearerForms)]
+	}
+	return goneTokenForms[c.ArtF%len(goneTokenForms)]
+}
+
+func (c caseT) issuer() string {
+	if c.Cfg.Dyn {
+		return "https://" + hostsT[c.Host]
+	}
+	return opfix.Issuer
 }
 
 func onoff(b bool) string {
@@ -449,7 +558,17 @@ func (c caseT) tags() []string {
 		"meth=" + strings.ToLower(methN[c.Reg.Meth][1:]), "app=" + strings.ToLower(appN[c.Reg.App][1:]),
 		"pres=" + c.Pres.tag(), "known=" + onoff(c.Reg.Known), "key=" + onoff(c.Reg.HasKey),
 		"post=" + onoff(c.Cfg.Post), "pkjwt=" + onoff(c.Cfg.PKJWT), "refresh=" + onoff(c.Cfg.Refresh),
-		"cc=" + onoff(c.Cfg.CC), "te=" + onoff(c.Cfg.TE), "dev=" + onoff(c.Cfg.Dev), "jwtprofile_method=" + onoff(!c.Cfg.NoJP), "subject_check=" + map[bool]string{false: "default", true: "custom"}[c.Cfg.Sub], "config_rest=" + envT[c.Cfg.Env]}
+		"cc=" + onoff(c.Cfg.CC), "te=" + onoff(c.Cfg.TE), "dev=" + onoff(c.Cfg.Dev), "jwtprofile_method=" + onoff(!c.Cfg.NoJP), "subject_check=" + map[bool]string{false: "default", true: "custom"}[c.Cfg.Sub], "config_rest=" + envT[c.Cfg.Env],
+		"issuer=" + map[bool]string{false: "static", true: "per_host"}[c.Cfg.Dyn]}
+	if c.Cfg.Dyn {
+		t = append(t, "host="+[]string{"a", "b"}[c.Host])
+	}
+	if c.Endpoint == eIntrospect || c.Endpoint == eRevoke || c.Endpoint == eToken && c.Grant == gBearer {
+		t = append(t, "artefact="+artT[c.Art])
+		if c.Art != 0 {
+			t = append(t, "artefact_form="+c.artForm())
+		}
+	}
 	if c.Reg.Meth == 4 {
 		t = append(t, "meth_value="+methOther[c.Reg.MV%len(methOther)].Name)
 	}
@@ -466,7 +585,13 @@ func (c caseT) tags() []string {
 		t = append(t, "pl_grant="+gplaceT[c.Pl.Grant])
 	}
 	t = append(t, "prev="+prevT[c.Prev])
-	t = append(t, c.Pres.formTags()...)
+	for _, ft := range c.Pres.formTags() {
+		if strings.HasPrefix(ft, "basic_enc=") {
+			ft = "basic_enc=" + encT[c.basicEnc()]
+		}
+		t = append(t, ft)
+	}
+	t = append(t, "id_kind="+idKindT[c.IDKind])
 	if hasStoredSecret(c.Reg.Meth) {
 		t = append(t, "stored_secret="+secKindT[c.SecKind])
 	}
@@ -539,7 +664,7 @@ func worldOf(c cfgT) *world {
 	st.Users["alice"] = &refstore.User{Subject: "alice", Name: "Alice A", Email: "alice@example.com"}
 	var f *opfix.Fixture
 	var err error
-	if c.Env == 0 {
+	if c.Env == 0 && !c.Dyn {
 		f, err = opfix.New(st, opfix.Options{NoPost: !c.Post, NoPKJWT: !c.PKJWT, NoRefresh: !c.Refresh, NoCC: !c.CC, NoTE: !c.TE, NoDevice: !c.Dev})
 	} else {
 		// the same provider as opfix.New builds, with another rest of the configuration
@@ -547,7 +672,11 @@ func worldOf(c cfgT) *world {
 		restOfConfig(cfg, c.Env)
 		lg := slog.New(slog.NewTextHandler(io.Discard, nil))
 		var p *op.Provider
-		p, err = op.NewProvider(cfg, st.AsStorage(c.CC, c.TE, c.Dev), op.StaticIssuer(opfix.Issuer), op.WithLogger(lg))
+		issuer := op.StaticIssuer(opfix.Issuer)
+		if c.Dyn {
+			issuer = op.IssuerFromHost("")
+		}
+		p, err = op.NewProvider(cfg, st.AsStorage(c.CC, c.TE, c.Dev), issuer, op.WithLogger(lg))
 		if err == nil {
 			f = &opfix.Fixture{Store: st, Provider: p}
 			f.Handlers[opfix.Provider] = p
@@ -583,13 +712,17 @@ const verifier = "c05-verifier-c05-verifier-c05-verifier-c05-verifier"
 func signAssertion(key any, iss string, aud []string) string { return signAssertionSub(key, iss, iss, aud) }
 
 func signAssertionSub(key any, iss, sub string, aud []string) string {
+	now := time.Now()
+	return signAssertionAt(key, iss, sub, aud, now.Add(-time.Second), now.Add(time.Hour))
+}
+
+func signAssertionAt(key any, iss, sub string, aud []string, iat, exp time.Time) string {
 	signer, err := jose.NewSigner(jose.SigningKey{Algorithm: jose.ES256, Key: key},
 		(&jose.SignerOptions{}).WithHeader("kid", "k1"))
 	if err != nil {
 		panic(err)
 	}
-	now := time.Now()
-	payload, err := json.Marshal(map[string]any{"iss": iss, "sub": sub, "aud": aud, "iat": now.Add(-time.Second).Unix(), "exp": now.Add(time.Hour).Unix()})
+	payload, err := json.Marshal(map[string]any{"iss": iss, "sub": sub, "aud": aud, "iat": iat.Unix(), "exp": exp.Unix()})
 	if err != nil {
 		panic(err)
 	}
@@ -644,8 +777,50 @@ func storedSecret(id string, kind int) string {
 		return " \t" + base + " \n" // white space is part of the registered secret
 	case 5:
 		return base + " +%&=:/?#s"
+	case 6:
+		return "sec+" + strings.NewReplacer("+", "", " ", "").Replace(id) + "+x" // literal "+", no space
 	}
 	return base
+}
+
+// basicEnc: the wire encoding the Basic credentials really travel in (a user / password with "+" or "%" in it is never sent raw)
+func (c caseT) basicEnc() int {
+	enc := c.Pres.enc()
+	id := clientID(c.IDKind, 0)
+	if c.Pres.Kind == pNearID {
+		id = idForms[c.Pres.IDF%len(idForms)].F(id)
+	}
+	right := "decoy-secret"
+	if hasStoredSecret(c.Reg.Meth) {
+		right = storedSecret(clientID(c.IDKind, 0), c.SecKind)
+	}
+	sec, _ := secretString(c.Pres.B, c.Pres.BF, right)
+	if enc == 0 && strings.ContainsAny(id+sec, "%+") {
+		enc = 1
+	}
+	return enc
+}
+
+// goneOrJunk: the token parameter for the state of the case: the live value, a string that does not decode, or a well-formed
+// value that names nothing live (an id the storage does not know, an expired token)
+func goneOrJunk(c caseT, art int, live string, enc func(string) string, mkExpired func(), sfx string) string {
+	switch art {
+	case 1:
+		return junkTokenForms[c.ArtF%len(junkTokenForms)].F(live)
+	case 2:
+		switch goneTokenForms[c.ArtF%len(goneTokenForms)] {
+		case "expired":
+			mkExpired()
+			if c.Endpoint == eRevoke {
+				return "rt-gone-" + sfx // a refresh token id the storage does not know (any more)
+			}
+			return enc("at-exp-" + sfx + ":alice")
+		case "other_subject_unknown":
+			return enc("at-nope-" + sfx + ":bob")
+		}
+		return enc("at-nope-" + sfx + ":alice")
+	}
+	return live
 }
 
 var selfPrimerOK, selfPrimers int // X's own priming requests answered 2xx / sent
@@ -655,7 +830,7 @@ func run(c caseT) outcome {
 	w := worldOf(c.Cfg)
 	w.n++
 	st := w.st
-	id := fmt.Sprintf("cks%d", w.n) // has letters with Unicode case-fold twins
+	id := clientID(c.IDKind, w.n)
 	hasSecret := hasStoredSecret(c.Reg.Meth)
 	secret := storedSecret(id, c.SecKind)
 	stored := secret
@@ -717,7 +892,8 @@ func run(c caseT) outcome {
 	}
 	path := ""
 	// artefact prepares an otherwise valid grant artefact named by sfx for the client own and returns its parameters
-	artefact := func(sfx, own, iss string) url.Values {
+	issuerURL := c.issuer()
+	artefact := func(sfx, own, iss, aud string, art int) url.Values {
 		form := url.Values{}
 		rt := "rt-" + sfx
 		newRefresh := func() {
@@ -743,7 +919,23 @@ func run(c caseT) outcome {
 			case gCC:
 				form.Set("scope", "openid")
 			case gBearer:
-				form.Set("assertion", signAssertion(rightKey, iss, []string{opfix.Issuer}))
+				switch {
+				case art == 1:
+					form.Set("assertion", junkForms[c.ArtF%len(junkForms)])
+				case art == 2:
+					switch goneBearerForms[c.ArtF%len(goneBearerForms)] {
+					case "expired":
+						form.Set("assertion", signAssertionAt(rightKey, iss, iss, []string{aud}, now.Add(-2*time.Minute), now.Add(-time.Minute)))
+					case "aud_other_host":
+						form.Set("assertion", signAssertion(rightKey, iss, []string{"https://other.example.com"}))
+					case "aud_other_tenant":
+						form.Set("assertion", signAssertion(rightKey, iss, []string{otherTenant(aud)}))
+					default: // issued too long ago (the verifier's max age is 1 h, 10 min with the custom one)
+						form.Set("assertion", signAssertionAt(rightKey, iss, iss, []string{aud}, now.Add(-3*time.Hour), now.Add(time.Hour)))
+					}
+				default:
+					form.Set("assertion", signAssertion(rightKey, iss, []string{aud}))
+				}
 				form.Set("scope", "openid")
 			case gTE:
 				newRefresh()
@@ -760,22 +952,34 @@ func run(c caseT) outcome {
 			path = "/oauth/introspect"
 			at := "at-" + sfx
 			st.Tokens[at] = &refstore.Token{ID: at, ClientID: own, Subject: "alice", Audience: []string{own}, Scopes: []string{"openid"}, Expiration: now.Add(time.Hour)}
-			tok, err := w.f.Provider.Crypto().Encrypt(at + ":alice")
-			if err != nil {
-				panic(err)
+			enc := func(v string) string {
+				tok, err := w.f.Provider.Crypto().Encrypt(v)
+				if err != nil {
+					panic(err)
+				}
+				return tok
 			}
-			form.Set("token", tok)
+			form.Set("token", goneOrJunk(c, art, enc(at+":alice"), enc, func() {
+				st.Tokens["at-exp-"+sfx] = &refstore.Token{ID: "at-exp-" + sfx, ClientID: own, Subject: "alice", Audience: []string{own}, Scopes: []string{"openid"}, Expiration: now.Add(-time.Minute)}
+			}, sfx))
 		case eRevoke:
 			path = "/revoke"
 			newRefresh()
-			form.Set("token", rt)
+			enc := func(v string) string {
+				tok, err := w.f.Provider.Crypto().Encrypt(v)
+				if err != nil {
+					panic(err)
+				}
+				return tok
+			}
+			form.Set("token", goneOrJunk(c, art, rt, enc, func() {}, sfx))
 		case eDeviceAuthz:
 			path = "/device_authorization"
 			form.Set("scope", "openid")
 		}
 		return form
 	}
-	form := artefact(id, owner, sentID)
+	form := artefact(id, owner, sentID, issuerURL, c.Art)
 	rt := "rt-" + id
 
 	// presentation
@@ -789,6 +993,9 @@ func run(c caseT) outcome {
 	}
 	if benc == 0 && strings.ContainsAny(sentID+sec(c.Pres.B, c.Pres.BF), "%+") {
 		benc = 1 // a user / password with "+" or "%" in it must be encoded in the Basic header to arrive as it is
+	}
+	if benc != c.basicEnc() {
+		labelErrors++
 	}
 	switch c.Pres.Kind {
 	case pIDOnly:
@@ -814,7 +1021,7 @@ func run(c caseT) outcome {
 			cform.Set("client_secret", sec(c.Pres.B, c.Pres.BF))
 		default:
 			cform.Set("client_assertion_type", oidc.ClientAssertionTypeJWTAssertion)
-			cform.Set("client_assertion", signAssertion(rightKey, sentID, []string{opfix.Issuer}))
+			cform.Set("client_assertion", signAssertion(rightKey, sentID, []string{issuerURL}))
 		}
 	case pAssert, pAssertID:
 		if c.Pres.Kind == pAssertID {
@@ -825,11 +1032,11 @@ func run(c caseT) outcome {
 		case 3:
 			cform.Set("client_assertion", junkForms[c.Pres.AF%len(junkForms)])
 		case 0:
-			cform.Set("client_assertion", signAssertion(rightKey, id, []string{opfix.Issuer}))
+			cform.Set("client_assertion", signAssertion(rightKey, id, []string{issuerURL}))
 		case 1:
-			cform.Set("client_assertion", signAssertion(otherKey, id, []string{opfix.Issuer}))
+			cform.Set("client_assertion", signAssertion(otherKey, id, []string{issuerURL}))
 		default:
-			cform.Set("client_assertion", signAssertion(rightKey, id, []string{audForms[c.Pres.AF%len(audForms)].F(opfix.Issuer)}))
+			cform.Set("client_assertion", signAssertion(rightKey, id, []string{audForms[c.Pres.AF%len(audForms)].F(issuerURL)}))
 		}
 	case pBoth:
 		basicID, basicSec, useBasic = wire(id, benc), wire(sec(c.Pres.B, c.Pres.BF), benc), true
@@ -842,11 +1049,11 @@ func run(c caseT) outcome {
 		cform.Set("client_id", vid)
 	case pXAssert:
 		cform.Set("client_assertion_type", oidc.ClientAssertionTypeJWTAssertion)
-		cform.Set("client_assertion", signAssertion(rightKey, id, []string{opfix.Issuer}))
+		cform.Set("client_assertion", signAssertion(rightKey, id, []string{issuerURL}))
 		cform.Set("client_id", vid)
 	case pXSub:
 		cform.Set("client_assertion_type", oidc.ClientAssertionTypeJWTAssertion)
-		cform.Set("client_assertion", signAssertionSub(rightKey, id, vid, []string{opfix.Issuer}))
+		cform.Set("client_assertion", signAssertionSub(rightKey, id, vid, []string{issuerURL}))
 	case pXPost:
 		basicID, basicSec, useBasic = vid, "wrong-secret", true
 		cform.Set("client_id", id)
@@ -862,9 +1069,9 @@ func run(c caseT) outcome {
 		cform.Set("client_id", id)
 		cform.Set("client_assertion_type", oidc.ClientAssertionTypeJWTAssertion)
 	case pAssertNoType:
-		cform.Set("client_assertion", signAssertion(rightKey, id, []string{opfix.Issuer}))
+		cform.Set("client_assertion", signAssertion(rightKey, id, []string{issuerURL}))
 	case pAssertWrongType:
-		cform.Set("client_assertion", signAssertion(rightKey, id, []string{opfix.Issuer}))
+		cform.Set("client_assertion", signAssertion(rightKey, id, []string{issuerURL}))
 		cform.Set("client_assertion_type", atypeForms[c.Pres.AF%len(atypeForms)].F(oidc.ClientAssertionTypeJWTAssertion))
 	}
 	// placement
@@ -934,7 +1141,7 @@ func run(c caseT) outcome {
 	} else {
 		queryStr = strings.TrimPrefix(queryStr+handMade, "&")
 	}
-	target := opfix.Issuer + path
+	target := issuerURL + path
 	if queryStr != "" {
 		target += "?" + queryStr
 	}
@@ -943,6 +1150,17 @@ func run(c caseT) outcome {
 	req.Header.Set("Content-Type", "application/x-www-form-urlencoded")
 	if useBasic {
 		req.Header.Set("Authorization", "Basic "+base64.StdEncoding.EncodeToString([]byte(basicID+":"+basicSec)))
+		// ground truth, by the harness's own decoder: the header names X / carries X's exact secret exactly when the
+		// abstract presentation says so
+		switch c.Pres.Kind {
+		case pBasic, pBoth, pNearID, pXBasic:
+			du, ok1 := formDecode(basicID)
+			ds, ok2 := formDecode(basicSec)
+			wantRight := c.Pres.B == sRight || c.Pres.Kind == pXBasic
+			if !ok1 || !ok2 || (du == id) != (c.Pres.Kind != pNearID) || (ds == secret) != wantRight || c.Pres.B == sEmpty && ds != "" {
+				labelErrors++
+			}
+		}
 	}
 	// sequence: the same provider instance first serves an introspection request of a third client P
 	// that carries P's full credential
@@ -955,7 +1173,7 @@ func run(c caseT) outcome {
 		ptok, _ := w.f.Provider.Crypto().Encrypt("at-" + pid + ":alice")
 		pf := url.Values{"token": {ptok}}
 		preq := func() *http.Request {
-			rq := httptest.NewRequest(http.MethodPost, opfix.Issuer+"/oauth/introspect", strings.NewReader(pf.Encode()))
+			rq := httptest.NewRequest(http.MethodPost, issuerURL+"/oauth/introspect", strings.NewReader(pf.Encode()))
 			rq.Header.Set("Content-Type", "application/x-www-form-urlencoded")
 			return rq
 		}
@@ -963,7 +1181,7 @@ func run(c caseT) outcome {
 		switch c.Prev {
 		case 1:
 			pf.Set("client_assertion_type", oidc.ClientAssertionTypeJWTAssertion)
-			pf.Set("client_assertion", signAssertion(rightKey, pid, []string{opfix.Issuer}))
+			pf.Set("client_assertion", signAssertion(rightKey, pid, []string{issuerURL}))
 			rq = preq()
 		case 2:
 			rq = preq()
@@ -983,8 +1201,12 @@ func run(c caseT) outcome {
 	// ... or X's own request on the same endpoint and grant: the full credential of its registered method (everything in
 	// the request body) and an artefact of its own. Whatever a handler keeps from it (a pooled request struct, a cached
 	// client or credential) is X's, so the case's request - which may omit or garble the credential - follows it directly.
-	if c.Prev == 4 {
-		pf := artefact(id+"-0", id, id)
+	if c.Prev >= 4 {
+		pIss := issuerURL
+		if c.Prev == 5 {
+			pIss = otherTenant(issuerURL)
+		}
+		pf := artefact(id+"-0", id, id, pIss, 0)
 		if c.Endpoint == eToken && c.Grant != gMissing {
 			pf.Set("grant_type", grantV[artGrant])
 		}
@@ -997,11 +1219,11 @@ func run(c caseT) outcome {
 			pf.Set("client_secret", secret)
 		case 2:
 			pf.Set("client_assertion_type", oidc.ClientAssertionTypeJWTAssertion)
-			pf.Set("client_assertion", signAssertion(rightKey, id, []string{opfix.Issuer}))
+			pf.Set("client_assertion", signAssertion(rightKey, id, []string{pIss}))
 		default:
 			pf.Set("client_id", id)
 		}
-		rq := httptest.NewRequest(http.MethodPost, opfix.Issuer+path, strings.NewReader(pf.Encode()))
+		rq := httptest.NewRequest(http.MethodPost, pIss+path, strings.NewReader(pf.Encode()))
 		rq.Header.Set("Content-Type", "application/x-www-form-urlencoded")
 		if basic != nil {
 			rq.SetBasicAuth(basic[0], basic[1])
@@ -1062,7 +1284,7 @@ func run(c caseT) outcome {
 			poll := func(f url.Values, basic []string) bool {
 				f.Set("grant_type", grantV[gDevice])
 				f.Set("device_code", dcode)
-				rq := httptest.NewRequest(http.MethodPost, opfix.Issuer+"/oauth/token", strings.NewReader(f.Encode()))
+				rq := httptest.NewRequest(http.MethodPost, issuerURL+"/oauth/token", strings.NewReader(f.Encode()))
 				rq.Header.Set("Content-Type", "application/x-www-form-urlencoded")
 				if basic != nil {
 					rq.SetBasicAuth(basic[0], basic[1])
@@ -1081,7 +1303,7 @@ func run(c caseT) outcome {
 				o.PollSelf = poll(url.Values{"client_id": {id}, "client_secret": {secret}}, nil)
 			case 2:
 				o.PollSelf = poll(url.Values{"client_assertion_type": {oidc.ClientAssertionTypeJWTAssertion},
-					"client_assertion": {signAssertion(rightKey, id, []string{opfix.Issuer})}}, nil)
+					"client_assertion": {signAssertion(rightKey, id, []string{issuerURL})}}, nil)
 			default:
 				o.PollSelf = poll(url.Values{"client_id": {id}}, nil)
 			}
@@ -1257,8 +1479,17 @@ func randomCase(r drv.Rand) caseT {
 		}
 	}
 	c.SecKind = drawSecKind(r)
+	if r.Chance(1, 8) {
+		c.IDKind = 1 + r.IntN(2)
+	}
 	// mostly-on configuration, each switch off with probability 1/4
-	c.Cfg = cfgT{!r.Chance(1, 4), !r.Chance(1, 4), !r.Chance(1, 4), !r.Chance(1, 4), !r.Chance(1, 4), !r.Chance(1, 4), r.Chance(1, 4), r.Chance(1, 4), r.IntN(2) * r.IntN(len(envT))}
+	c.Cfg = cfgT{!r.Chance(1, 4), !r.Chance(1, 4), !r.Chance(1, 4), !r.Chance(1, 4), !r.Chance(1, 4), !r.Chance(1, 4), r.Chance(1, 4), r.Chance(1, 4), r.IntN(2) * r.IntN(len(envT)), r.Chance(1, 6)}
+	c.Host = r.IntN(2)
+	if c.Endpoint == eIntrospect || c.Endpoint == eRevoke || c.Endpoint == eToken && c.Grant == gBearer {
+		if r.Chance(1, 4) {
+			c.Art, c.ArtF = 1+r.IntN(2), r.IntN(64)
+		}
+	}
 	c.Reg.Known = !r.Chance(1, 10)
 	c.Reg.Meth, c.Reg.MV = r.IntN(5), r.IntN(64)
 	c.Reg.App = r.IntN(3)
@@ -1277,6 +1508,9 @@ func randomCase(r drv.Rand) caseT {
 	c.Pl = drawPl(r)
 	if r.Chance(1, 4) {
 		c.Prev = 1 + r.IntN(4)
+		if c.Prev == 4 && c.Cfg.Dyn && r.Bool() {
+			c.Prev = 5
+		}
 	}
 	if r.Bool() {
 		switch c.Reg.Meth {
@@ -1289,6 +1523,9 @@ func randomCase(r drv.Rand) caseT {
 		default:
 			c.Pres = presT{Kind: pIDOnly}
 		}
+	}
+	if isCross(c.Pres.Kind) || c.Pres.Kind == pBasicBadEsc {
+		c.IDKind = 0 // these presentations send X's id as it is
 	}
 	return c
 }
@@ -1306,7 +1543,7 @@ func full(grants ...int) [7]bool {
 
 // directed cases: the inputs of the defects this check found (kept so they are reported again if they return)
 func directed() []caseT {
-	allOn := cfgT{true, true, true, true, true, true, false, false, 0}
+	allOn := cfgT{true, true, true, true, true, true, false, false, 0, false}
 	web := func(m int, gr [7]bool) regT { return regT{Known: true, Meth: m, App: 0, Grants: gr, HasKey: m == 2} }
 	var cs []caseT
 	// F03: malformed escape in the Basic header, the five legacy grant handlers of the Provider router
@@ -1344,7 +1581,7 @@ func directed() []caseT {
 // (2) every router x endpoint/grant x cross-client presentation x auth method of the second client, for a basic and a
 // private_key_jwt client X; (3) every router x endpoint/grant x placement of grant_type / client parameters / artefact.
 func systematic() []caseT {
-	allOn := cfgT{true, true, true, true, true, true, false, false, 0}
+	allOn := cfgT{true, true, true, true, true, true, false, false, 0, false}
 	var cs []caseT
 	rot := 0 // rotates through the concrete near-miss forms
 	type eg struct{ e, g int }
@@ -1558,6 +1795,127 @@ func systematic() []caseT {
 					}
 				}
 			}
+			// (12) where the secret travels x Config.AuthMethodPost (round 11): the exact secret in the Authorization header, as a form
+			// parameter (body / URL query), in both, in the form next to a wrong Basic password, and a wrong form secret - for a
+			// client registered client_secret_basic, client_secret_post and with a method outside the constants, with the
+			// provider's AuthMethodPost on and off ("correct secret via Basic or - if enabled - POST")
+			for _, meth := range []int{0, 1, 4} {
+				mv++
+				rg := regT{Known: true, Meth: meth, MV: mv, App: 0, Grants: full(), HasKey: false}
+				for _, post := range []bool{true, false} {
+					cf := allOn
+					cf.Post = post
+					for _, pp := range []struct {
+						pr  presT
+						plc int
+					}{{presT{Kind: pBasic}, 0}, {presT{Kind: pPost}, 0}, {presT{Kind: pPost}, 1}, {presT{Kind: pBoth, B: sRight, P: sRight}, 0},
+						{presT{Kind: pBoth, B: sWrong, P: sRight}, 0}, {presT{Kind: pPost, P: sWrong}, 0}, {presT{Kind: pPost, FEnc: 1}, 0}} {
+						cs = append(cs, caseT{Router: router, Endpoint: x.e, Grant: x.g, Cfg: cf, Reg: rg, Pres: pp.pr, Pl: plT{Client: pp.plc}, Tag: "block=secret_transport"})
+					}
+				}
+			}
+			// (13) reserved characters in the registered secret and client id x wire encoding (round 11). Accept side: the exact
+			// secret / id with white space, "+", "%", "&" ... in it, form-encoded in the Basic header (%XX; url.QueryEscape:
+			// space as "+") and in the form. Reject side: the strings a decoder that treats "+" or "%" differently would
+			// confuse with it - a space where the registered string has "+" (sent as "+"), "+" where it has a space (sent
+			// as %2B), for the secret and for the id
+			for mi, meth := range []int{0, 1} {
+				if mi == 0 && rot%3 == 0 {
+					meth = 4
+				}
+				mv++
+				rg := regT{Known: true, Meth: meth, MV: mv, App: 0, Grants: full(), HasKey: false}
+				for _, kd := range [][2]int{{4, 0}, {5, 0}, {6, 0}, {0, 1}, {0, 2}, {6, 1}} {
+					sk, ik := kd[0], kd[1]
+					rc := func(p presT, form string) {
+						if form != "" {
+							p.BF, p.PF, p.IDF = formIndex(nearForms, form), formIndex(nearForms, form), formIndex(idForms, form)
+						}
+						p.Pct = p.Enc != 0
+						cs = append(cs, caseT{Router: router, Endpoint: x.e, Grant: x.g, Cfg: allOn, Reg: rg, Pres: p, SecKind: sk, IDKind: ik, Tag: "block=reserved_chars"})
+						rot++
+					}
+					rc(presT{Kind: pBasic, Enc: 1}, "")
+					rc(presT{Kind: pBasic, Enc: 2}, "")
+					rc(presT{Kind: pPost, FEnc: rot % 3}, "")
+					if sk == 5 || sk == 6 {
+						rc(presT{Kind: pBasic, B: sNear, Enc: 2}, "plus_to_space")
+						rc(presT{Kind: pPost, P: sNear, FEnc: rot % 2}, "plus_to_space")
+					}
+					if sk == 4 || sk == 5 {
+						rc(presT{Kind: pBasic, B: sNear, Enc: 1 + rot%2}, "once_plus")
+						rc(presT{Kind: pPost, P: sNear}, "once_plus")
+					}
+					if ik == 1 {
+						rc(presT{Kind: pNearID, Slot: 0, B: sRight, Enc: 2}, "plus_to_space")
+						rc(presT{Kind: pNearID, Slot: 1, B: sRight}, "plus_to_space")
+					}
+					if ik == 2 {
+						rc(presT{Kind: pNearID, Slot: 0, B: sRight, Enc: 1 + rot%2}, "once_plus")
+						rc(presT{Kind: pNearID, Slot: 1, B: sRight}, "once_plus")
+					}
+				}
+			}
+			// (14) the state of the token x the credential (round 11): introspection, revocation and the jwt-bearer grant with a token /
+			// grant assertion that does not decode, or that is well formed and names nothing live (unknown id, expired, addressed to
+			// another issuer), for every auth method x {fitting credential, nothing, client_id only, wrong Basic secret, wrong form
+			// secret, empty Basic password, assertion signed by another key, unknown client}. The caller is authenticated first:
+			// a token fault next to a credential fault is the credential's refusal, never a success document
+			if x.e == eIntrospect || x.e == eRevoke || x.g == gBearer {
+				for meth := 0; meth < 5; meth++ {
+					mv++
+					rg := regT{Known: true, Meth: meth, MV: mv, App: 0, Grants: full(), HasKey: meth == 2 || x.g == gBearer}
+					unknown := rg
+					unknown.Known = false
+					for art := 1; art <= 2; art++ {
+						ts := func(rg regT, pr presT) {
+							pr.BF, pr.PF = rot, rot
+							cs = append(cs, caseT{Router: router, Endpoint: x.e, Grant: x.g, Cfg: allOn, Reg: rg, Pres: pr, Art: art, ArtF: rot, Tag: "block=token_state"})
+							rot++
+						}
+						ts(rg, fitting[meth])
+						if x.g == gBearer {
+							ts(rg, fitting[meth]) // a second form of the faulty grant assertion; the jwt-bearer grant reads no client credential
+							ts(rg, presT{Kind: pNone})
+							continue
+						}
+						for _, pr := range []presT{{Kind: pNone}, {Kind: pIDOnly}, {Kind: pBasic, B: sWrong}, {Kind: pPost, P: sWrong}, {Kind: pBasic, B: sEmpty},
+							{Kind: pAssert, A: 1}, {Kind: pBasic, B: sNear}} {
+							ts(rg, pr)
+						}
+						ts(unknown, presT{Kind: pBasic})
+						ts(unknown, presT{Kind: pIDOnly})
+					}
+				}
+			}
+			// (15) a provider that derives its issuer from the request's host (op.IssuerFromHost: one instance, many tenants): on
+			// each of two hosts a client assertion addressed to this host's issuer (valid), to the OTHER host's issuer (must be
+			// refused), the fitting credential of a basic client - as the first request and right after X's own valid request at
+			// the other host (whatever the instance keeps from that request - a verifier, an issuer - belongs to the other tenant);
+			// the jwt-bearer grant with a grant assertion addressed to the other tenant
+			dyn := allOn
+			dyn.Dyn = true
+			for _, prev := range []int{5, 0} {
+				for host := 0; host < 2; host++ {
+					pk := regT{Known: true, Meth: 2, App: 0, Grants: full(), HasKey: true}
+					bk := regT{Known: true, Meth: 0, App: 0, Grants: full(), HasKey: true}
+					ph := func(rg regT, pr presT, art int) {
+						pr.AF = formIndex(audForms, "other_tenant")
+						cs = append(cs, caseT{Router: router, Endpoint: x.e, Grant: x.g, Cfg: dyn, Host: host, Reg: rg, Pres: pr, Prev: prev,
+							Art: art, ArtF: 2, Tag: "block=issuer_per_host"})
+					}
+					if x.g == gBearer {
+						ph(pk, presT{Kind: pNone}, 0)
+						ph(pk, presT{Kind: pNone}, 2) // ArtF 2 = aud_other_tenant
+						continue
+					}
+					ph(pk, presT{Kind: pAssert, A: 0}, 0)
+					ph(pk, presT{Kind: pAssert, A: 2}, 0)
+					ph(pk, presT{Kind: pAssertID, A: 2}, 0)
+					ph(bk, presT{Kind: pAssert, A: 2}, 0) // a basic client with a registered key (introspection / revocation accept its assertion)
+					ph(bk, presT{Kind: pBasic}, 0)
+				}
+			}
 			// (6) near misses of the grant_type value itself (other case, surrounding white space, keyword), with the artefact
 			// and the registration of the real grant and a fitting credential
 			if x.e == eToken {
@@ -1615,6 +1973,9 @@ func enumerate(r drv.Rand, emitCase func(caseT)) {
 							for flags := 0; flags < 8; flags++ {
 								for v := 0; v < 8; v++ { // v: known/registered/key/capability variants
 									c := caseT{Router: router, Endpoint: e, Grant: g, Pres: drawForms(r, p), Pl: drawPl(r), SecKind: drawSecKind(r)}
+									if !isCross(p.Kind) && p.Kind != pBasicBadEsc && r.Chance(1, 8) {
+										c.IDKind = 1 + r.IntN(2)
+									}
 									c.Pres.VM, c.Pres.VG = r.IntN(5), r.Bool()
 									if r.Chance(1, 4) {
 										c.Prev = 1 + r.IntN(4)
@@ -1622,7 +1983,14 @@ func enumerate(r drv.Rand, emitCase func(caseT)) {
 									if g == gUnknown && r.Chance(2, 3) {
 										c.GBase, c.GForm = r.IntN(6), 1+r.IntN(len(grantForms))
 									}
-									c.Cfg = cfgT{bits(flags, 0), bits(flags, 1), bits(flags, 2), r.Bool(), r.Bool(), r.Bool(), r.Chance(1, 3), r.Chance(1, 3), r.IntN(2) * r.IntN(len(envT))}
+									c.Cfg = cfgT{bits(flags, 0), bits(flags, 1), bits(flags, 2), r.Bool(), r.Bool(), r.Bool(), r.Chance(1, 3), r.Chance(1, 3), r.IntN(2) * r.IntN(len(envT)), r.Chance(1, 6)}
+									c.Host = r.IntN(2)
+									if (e == eIntrospect || e == eRevoke || e == eToken && g == gBearer) && r.Chance(1, 4) {
+										c.Art, c.ArtF = 1+r.IntN(2), r.IntN(64)
+									}
+									if c.Prev == 4 && c.Cfg.Dyn && r.Bool() {
+										c.Prev = 5
+									}
 									capOn := bits(v, 0)
 									switch grantOf(e, g) {
 									case gCC:
@@ -1695,9 +2063,13 @@ func main() {
 		exhaustive = true
 		enumerate(r, add)
 	}
+	if labelErrors > 0 {
+		fmt.Fprintln(os.Stderr, "driver: ", labelErrors, "Basic headers whose wire form contradicts the abstract kind of the case")
+		os.Exit(2)
+	}
 	err := w.Close(emit.Meta{Property: "C05", Tier: cfg.Tier, Seed: cfg.Seed, Exhaustive: exhaustive,
-		Extra: map[string]any{"primer_requests_not_answered_active": primerFailed, "self_primer_requests": selfPrimers, "self_primer_requests_answered_2xx": selfPrimerOK},
-		Rule:  "one HTTP request per case against the Provider or the LegacyServer router over refstore, with an otherwise valid grant (code+PKCE, refresh token, device code, subject token, key-signed assertion) prepared in an emptied store for the case's client X - or, for the four cross-client presentations, for a second confidential client Y whose id the request mixes with X's valid credential; varied: registration (auth method, grant set, app type, key, known), presented credential (20 forms), grant_type (9), provider flags and storage capabilities (6 switches), endpoint (4); observed also: the client the answer acted for (owner of the created token / device code, of the revoked or active token). Both tiers: directed defect inputs + systematic blocks (router x endpoint/grant x auth method x application type with fitting credential and with client_id only; router x endpoint/grant x cross-client presentation). Round 5: secrets are right / wrong / empty / white space only / a near miss of the right one, ids exact or a near miss (surrounding white space, other case, case-fold twins, trailing slash, one byte more or fewer, keyword literals), each kind in many concrete strings and wire encodings (raw, %XX, + ; tags basic_secret, form_secret, id_form, basic_enc, form_enc), stored secrets plain / 1-4 KiB long / with white space or reserved characters (stored_secret), near misses of the grant_type value (grant_form), and cases that follow X's own fully credentialed request on the same endpoint (prev=self); blocks near_miss, near_miss_grant_type, method_x_refusal. Round 6: a fifth auth-method class - AuthMethod() returns one of 13 values outside the library's constants (unset, client_secret_jwt, tls_client_auth, unknown, case variants; tag meth_value) for a client with a stored secret (block method_value) - and the LegacyServer built over a provider object that hides the optional method JWTProfileVerifier (7th switch, tag jwtprofile_method; block bare_provider), client_id next to an assertion, junk assertions. Round 7: secrets / ids that percent-decode one more time to the registered value (forms once_*), both routers built over a provider wrapper whose JWT profile verifier has a permissive SubjectCheck (8th switch, tag subject_check) and assertions of X whose subject is a second registered client (block subject_check). Round 8: Basic next to client_id in body / query (block basic_and_form_id). Round 9: the rest of op.Config (SupportedScopes with / without offline_access, claims, S256, request objects, back-channel logout, device settings; tag config_rest) crossed with every switch off (block config_rest). quick: + random draws (fitting credential half of the time); thorough: + the cross product, enumerating of the grant set only the membership of the grant at stake, of the six switches the three flags and the capability at stake, and drawing the application type. Non-trivial = model path class != 0 (the request got past the first guard of its handler); distinct = distinct (input, path class).",
+		Extra: map[string]any{"primer_requests_not_answered_active": primerFailed, "self_primer_requests": selfPrimers, "self_primer_requests_answered_2xx": selfPrimerOK, "basic_label_errors": labelErrors},
+		Rule:  "one HTTP request per case against the Provider or the LegacyServer router over refstore, with an otherwise valid grant (code+PKCE, refresh token, device code, subject token, key-signed assertion) prepared in an emptied store for the case's client X - or, for the four cross-client presentations, for a second confidential client Y whose id the request mixes with X's valid credential; varied: registration (auth method, grant set, app type, key, known), presented credential (20 forms), grant_type (9), provider flags and storage capabilities (6 switches), endpoint (4); observed also: the client the answer acted for (owner of the created token / device code, of the revoked or active token). Both tiers: directed defect inputs + systematic blocks (router x endpoint/grant x auth method x application type with fitting credential and with client_id only; router x endpoint/grant x cross-client presentation). Round 5: secrets are right / wrong / empty / white space only / a near miss of the right one, ids exact or a near miss (surrounding white space, other case, case-fold twins, trailing slash, one byte more or fewer, keyword literals), each kind in many concrete strings and wire encodings (raw, %XX, + ; tags basic_secret, form_secret, id_form, basic_enc, form_enc), stored secrets plain / 1-4 KiB long / with white space or reserved characters (stored_secret), near misses of the grant_type value (grant_form), and cases that follow X's own fully credentialed request on the same endpoint (prev=self); blocks near_miss, near_miss_grant_type, method_x_refusal. Round 6: a fifth auth-method class - AuthMethod() returns one of 13 values outside the library's constants (unset, client_secret_jwt, tls_client_auth, unknown, case variants; tag meth_value) for a client with a stored secret (block method_value) - and the LegacyServer built over a provider object that hides the optional method JWTProfileVerifier (7th switch, tag jwtprofile_method; block bare_provider), client_id next to an assertion, junk assertions. Round 7: secrets / ids that percent-decode one more time to the registered value (forms once_*), both routers built over a provider wrapper whose JWT profile verifier has a permissive SubjectCheck (8th switch, tag subject_check) and assertions of X whose subject is a second registered client (block subject_check). Round 8: Basic next to client_id in body / query (block basic_and_form_id). Round 9: the rest of op.Config (SupportedScopes with / without offline_access, claims, S256, request objects, back-channel logout, device settings; tag config_rest) crossed with every switch off (block config_rest). Round 11: where the exact secret travels (header / form in body or query / both / form next to a wrong Basic password) x AuthMethodPost on and off x client registered basic / post / other (block secret_transport); registered secrets and client ids with reserved characters (stored_secret=plus: a literal + and no space; id_kind=plus / space) x wire encoding, with the near misses a decoder that treats + or % differently would confuse with the registered string (form plus_to_space: a space, sent as +, where the registered string has +; once_plus: + where it has a space; block reserved_chars); every Basic header is decoded by the driver's own form decoder and compared with the abstract kind of the case (basic_label_errors must be 0); the state of the token sent to introspection / revocation and of the jwt-bearer grant assertion (9th input field: live / does not decode / well formed but unknown, expired or addressed to another issuer; tags artefact, artefact_form) crossed with every credential fault (block token_state); a provider that derives its issuer from the request's host (op.IssuerFromHost; tags issuer, host): assertions addressed to this host's / the other host's issuer, as the first request and right after X's own valid request at the other host (prev=self_other_host; block issuer_per_host). quick: + random draws (fitting credential half of the time); thorough: + the cross product, enumerating of the grant set only the membership of the grant at stake, of the six switches the three flags and the capability at stake, and drawing the application type. Non-trivial = model path class != 0 (the request got past the first guard of its handler); distinct = distinct (input, path class).",
 	})
 	if err != nil {
 		fmt.Fprintln(os.Stderr, err)
